@@ -458,7 +458,9 @@ def enum_end_to_end(col, tier, shard, nshards):
     from . import c08
 
     n = 0
-    for i, case in enumerate(c08.straddle_cases(tier)):
+    import itertools
+
+    for i, case in enumerate(itertools.chain(c08.recovery_cases(), c08.straddle_cases(tier))):
         if i % nshards != shard:
             continue
         r = c08.run_case(case)
